@@ -184,7 +184,15 @@ func seenMeta(ctx context.Context, id int) string {
 	return strings.Join(parts, "&")
 }
 
+// a handler may set response metadata before it fails: the failure must still be reported faithfully
+func touchResMeta(ctx context.Context, id int) {
+	if rm, ok := ctx.Value(share.ResMetaDataKey).(map[string]string); ok && rm != nil && id%2 == 0 {
+		rm["trace-id"] = "t" + strconv.Itoa(id)
+	}
+}
+
 func (t *Arith) Mul(ctx context.Context, a *SArgs, r *SReply) error {
+	touchResMeta(ctx, a.Id)
 	c, err := t.h.run(a.Id, a.A, a.B, a.Mode, a.Text)
 	if err != nil {
 		return err
@@ -199,6 +207,7 @@ type ArithP struct{ h *handlerEnv }
 func (t *ArithP) Mul(ctx context.Context, a *PArgs, r *PReply) error {
 	// pooled objects: must arrive clean and must be owned by this request alone while it runs
 	id := a.Id
+	touchResMeta(ctx, id)
 	if *r != (PReply{}) {
 		return fmt.Errorf("dirty-reply-object %+v", *r)
 	}
@@ -253,12 +262,16 @@ func newSrvRig(gated bool, opts ...server.OptionFn) *srvRig {
 	r.srv.RegisterName("Arith", &Arith{h: r.h}, "")
 	r.srv.RegisterName("ArithP", &ArithP{h: r.h}, "")
 	r.srv.RegisterFunctionName("Fn", "mul", func(ctx context.Context, a *SArgs, rep *SReply) error {
+		touchResMeta(ctx, a.Id)
 		c, err := r.h.run(a.Id, a.A, a.B, a.Mode, a.Text)
 		if err != nil {
 			return err
 		}
 		rep.Id, rep.C = a.Id, c
 		return nil
+	}, "")
+	r.srv.RegisterFunctionName("FnP", "mul", func(ctx context.Context, a *PArgs, rep *PReply) error {
+		return (&ArithP{h: r.h}).Mul(ctx, a, rep)
 	}, "")
 	r.srv.AddHandler("Rt", "mul", func(ctx *server.Context) error {
 		// the router handler is user code: it runs for every request routed to it
